@@ -222,7 +222,10 @@ fn c15() -> Outcome {
         let mut samples = v1::Samples::default();
         let k = 1 + r.below(8); let mut ids: Vec<u64> = vec![3, 17, 4, 9, 100, 1, 42, 8]; r.shuffle(&mut ids);
         let mut states: Vec<HashMap<u64, f64>> = vec![];
-        for j in 0..k { let s = if j > 0 && r.chance(1, 3) { states[r.below(j)].clone() } else { rand_instance_state(&mut r, &i) }; states.push(s.clone()); samples.add_sample(ids[j], st(&s)); }
+        // every third instance has one variable fixed by partial_evaluate (substituted value, no samples for it): the sample states give the remaining variables
+        let fixed: Option<u64> = if r.chance(1, 3) { let v = i.decision_variables[r.below(i.decision_variables.len())].id; let s0 = rand_instance_state(&mut r, &i);
+            match i.partial_evaluate(&st(&[(v, s0[&v])].into_iter().collect())) { Ok(_) => Some(v), Err(e) => fail!(n, "partial_evaluate of an in-bound value for variable {v} failed: {e}") } } else { None };
+        for j in 0..k { let mut s = if j > 0 && r.chance(1, 3) { states[r.below(j)].clone() } else { rand_instance_state(&mut r, &i) }; if let Some(v) = fixed { s.remove(&v); } states.push(s.clone()); samples.add_sample(ids[j], st(&s)); }
         let ss = match i.evaluate_samples(&samples) { Ok((ss, _)) => ss, Err(e) => fail!(n, "evaluate_samples failed on in-bound states: {e}") };
         if n == 3 { note(|| format!("random: best feasible of a sample set with ids {:?} (sense {})", &ids[..k], ss.sense)); }
         for unrelaxed in [false, true] {
